@@ -7,18 +7,25 @@ import pe as _pe
 import msi as _msi
 import jar as _jar
 import apk as _apk
+import cab as _cab
 _c09 = importlib.import_module("props.c09")
 _c19 = importlib.import_module("props.c19")
 
-TIE = "corr:pe-digest + pechecksum + merkle + ecdsa + msi-digest + xml-canon-vs-spec"
-TIE_THEOREM = ("Relic.Props.C05.pe_hash_eq_spec / fix_pe_checksum_eq_spec / pe_checksum_eq_spec / apk_digest_eq_spec / "
+TIE = "corr:pe-digest + pe-pagehash-spec + cab-digest-spec + pechecksum + merkle + ecdsa + msi-digest + xml-canon-vs-spec"
+TIE_THEOREM = ("Relic.Props.C05.pe_hash_eq_spec / pe_page_hashes_eq_spec / cab_digest_eq_spec / cab_digest_eq_spec_signed / fix_pe_checksum_eq_spec / pe_checksum_eq_spec / apk_digest_eq_spec / "
                "ecdsa_pack_fixed_width / msi_order_eq_spec / msi_prehash_eq_spec / msi_digest_eq_spec (models tied to lib/authenticode, signers/apk, lib/x509tools by differential execution)")
-RULE = ("ops of the models that carry the model-vs-specification theorems: " + _pe.RULE + " || C09 subset: cksum, fixpe, fixpehex, merkle — "
+RULE = ("ops of the models that carry the model-vs-specification theorems: " + _pe.RULE + " || " + _cab.RULE[:900] + " || C09 subset: cksum, fixpe, fixpehex, merkle — "
         + _c09.RULE[:600] + " || C19 subset: ecdsa, ecdsasign, every 4th canon op (canonical form vs the executable Exclusive-C14N specification; the deviations F16-* are listed for C05 too) || " + _msi.RULE)
-ASSUMPTIONS = list(_pe.ASSUMPTIONS) + list(_msi.ASSUMPTIONS) + ["the specifications are transcribed by hand into Relic/Spec/{Authenticode,PEChecksum,ApkV2,MsiDigest}.lean"]
-TRUSTED = list(_pe.TRUSTED) + list(_msi.TRUSTED) + ["external reference verifiers (jarsigner, JDK XML-DSig, openssl cms/ts, gpgv, dpkg) are NOT run: that half of C05 is outside this technique (DESIGN.md section 5, C05)"]
+ASSUMPTIONS = list(_pe.ASSUMPTIONS) + list(_cab.ASSUMPTIONS) + list(_msi.ASSUMPTIONS) + ["the specifications are transcribed by hand into Relic/Spec/{Authenticode,PageHashes,CabDigest,PEChecksum,ApkV2,MsiDigest}.lean"]
+TRUSTED = list(_pe.TRUSTED) + list(_cab.TRUSTED) + list(_msi.TRUSTED) + ["external reference verifiers (jarsigner, JDK XML-DSig, openssl cms/ts, gpgv, dpkg) are NOT run: that half of C05 is outside this technique (DESIGN.md section 5, C05)"]
 UNPROVED = ["pe_hash_eq_msdoc_spec (the section-sorted wording of the Microsoft document; the flat form is proved)",
-            "pe_pagehash_eq_spec", "cab_digest_eq_spec", "jar_sections_first_blank_line_full", "jar_fold_unfold_section_full",
+            "pe_page_hashes_eq_spec holds on the class Spec.PageHashes.regular (section-table fix-ups are the identity); outside it "
+            "the code and the description differ: pe_page_hashes_differ_unaligned, pe_page_hashes_differ_header_overlap; the page "
+            "size is the architectural one (osslsigncode: SectionAlignment; pe_page_hashes_differ_section_alignment)",
+            "cab_digest_eq_spec holds for regular layouts (OffsetFiles = end of the folder headers <= TotalSize); outside them the "
+            "code digests files the description rejects: cab_digest_irregular_differs (F35); the specification was written from "
+            "memory of osslsigncode / [MS-CAB], no Microsoft-signed cabinet is available offline to validate it",
+            "jar_sections_first_blank_line_full", "jar_fold_unfold_section_full",
             "msi_order_eq_spec holds under hypotheses (well-formed, pairwise distinct sibling names; no signature name below the root); "
             "outside them the code and the specification differ: msi_cmp_differs_embedded_nul"]
 IMPL_PARALLEL = 8
@@ -39,6 +46,20 @@ class _JarAdapter:
         return _jar.predicate("C05", op, il, mres, tag)
 
 
+class _CabAdapter:
+    nontrivial = staticmethod(_cab.nontrivial)
+    branch = staticmethod(_cab.branch)
+    matches_known = staticmethod(_cab.matches_known)
+
+    @staticmethod
+    def agree(op, il, mres, tag):
+        return _cab.equiv(op, il, mres)
+
+    @staticmethod
+    def predicate(op, il, mres, tag):
+        return _cab.predicate("C05", op, il, mres, tag)
+
+
 class _ApkAdapter:
     nontrivial = staticmethod(_apk.nontrivial)
     branch = staticmethod(_apk.branch)
@@ -55,7 +76,7 @@ class _ApkAdapter:
 
 def _m(op):
     t = op.split(" ", 1)[0]
-    return {"PE": None, "JAR": _JarAdapter, "APK": _ApkAdapter, "C09": _c09, "C19": _c19}.get(t)
+    return {"PE": None, "JAR": _JarAdapter, "APK": _ApkAdapter, "CAB": _CabAdapter, "C09": _c09, "C19": _c19}.get(t)
 
 
 def canon_model(op, mres):
@@ -63,6 +84,8 @@ def canon_model(op, mres):
         return _jar.canon_model(op, mres)
     if op.startswith("MSI "):
         return _msi.canon_model(op, mres)
+    if op.startswith("CAB "):
+        return _cab.canon_model(op, mres)
     return _pe.canon_model(op, mres) if op.startswith("PE ") else mres
 
 
